@@ -51,6 +51,8 @@ typedef struct {
     uint8_t *p;      /* usable start */
     size_t size;     /* usable size */
     size_t pad;
+    size_t maplen;   /* mapping length (internal) */
+    uint8_t *end;    /* first inaccessible byte (internal) */
 } gbuf;
 gbuf gbuf_new(size_t size, unsigned align);
 /* fill usable area with given prior content (len<=size), rest canary */
